@@ -4,6 +4,7 @@ pub mod rng;
 pub mod tiny;
 pub mod policy;
 pub mod cache;
+pub mod live;
 
 use std::io::Write;
 
